@@ -105,3 +105,23 @@ Theorem C11_building_exact : forall n up dw lf rg st ans,
       (List.cons up (List.cons dw (List.cons lf (List.cons rg nil))))) ans = true).
 Proof. exact building_exact. Qed.
 Print Assumptions C11_building_exact.
+
+(* Tier 1, doppelblock, every n and all clues (for n < 2 the solver raises ValueError) *)
+From Cspuz Require Import Puzzle.Rules_doppelblock Puzzle.Doppelblock Puzzle.DoppelblockProofs.
+Theorem C11_doppelblock_exact : forall n rows cols st ans,
+  solve_doppelblock_model (List.cons (List.cons (Z.of_nat n) nil) (List.cons rows (List.cons cols nil))) = Ok st ->
+  ((exists en, model_of no_graph en st /\ reads st en (seq 0 (n * n)) = ans)
+   <-> rules_doppelblock (List.cons (List.cons (Z.of_nat n) nil) (List.cons rows (List.cons cols nil))) ans = true).
+Proof. exact doppelblock_exact. Qed.
+Print Assumptions C11_doppelblock_exact.
+
+(* Tier 1, nurimisaki (after fix f977eba), every board shape, circles without number and with any number
+   n >= 1 (the model rejects cell values below -1, which are outside the module's alphabet); connectivity
+   through property C04's theorems as for creek *)
+From Cspuz Require Import Puzzle.Rules_nurimisaki Puzzle.Nurimisaki Puzzle.NurimisakiProofs.
+Theorem C11_nurimisaki_exact : forall h w grid st ans,
+  solve_nurimisaki_model (List.cons (List.cons (Z.of_nat h) (List.cons (Z.of_nat w) nil)) (List.cons grid nil)) = Ok st ->
+  ((exists en, model_of gsem_avc en st /\ reads st en (seq 0 (h * w)) = ans)
+   <-> rules_nurimisaki (List.cons (List.cons (Z.of_nat h) (List.cons (Z.of_nat w) nil)) (List.cons grid nil)) ans = true).
+Proof. exact nurimisaki_exact. Qed.
+Print Assumptions C11_nurimisaki_exact.
